@@ -352,7 +352,8 @@ func (vc *VC) zeroInit(st *State, ref Term, t types.Type) {
 	}
 	// ghost fields declared on this type start at their zero too (maps empty)
 	if key, named, _ := ownerKeyOf(t); key != "" {
-		for k, gf := range vc.specs.GhostFields {
+		for _, k := range sortedKeys(vc.specs.GhostFields) {
+			gf := vc.specs.GhostFields[k]
 			if strings.HasPrefix(k, key+".") {
 				e := &Env{vc: vc, pkg: gf.Pkg, vars: map[string]TV{}, heap: st.heap, old: st.heap}
 				e.tparams = e.typeArgEnv(named)
@@ -1150,7 +1151,12 @@ func (vc *VC) loopPos(li *loopInfo) token.Pos {
 			return ins.Pos()
 		}
 	}
+	var bs []*ssa.BasicBlock
 	for b := range li.blocks {
+		bs = append(bs, b)
+	}
+	sort.Slice(bs, func(i, j int) bool { return bs[i].Index < bs[j].Index })
+	for _, b := range bs {
 		for _, ins := range b.Instrs {
 			if ins.Pos().IsValid() {
 				return ins.Pos()
